@@ -41,12 +41,14 @@ type Program struct {
 	// TestPkgs is filled by LoadTests (syntax and types of _test.go files).
 	TestPkgs []*packages.Package
 
-	noret  map[*ssa.Function]bool
-	nonnil map[*ssa.Function]bool
-	nnMu   sync.Mutex
-	eff   map[*ssa.Function]*Effects
-	cg    *CallGraph
-	guses map[*ssa.Global][]ssa.Instruction
+	noret    map[*ssa.Function]bool
+	nonnil   map[*ssa.Function]bool
+	nnMu     sync.Mutex
+	usedEdge map[*ssa.Phi][]bool
+	ueMu     sync.Mutex
+	eff      map[*ssa.Function]*Effects
+	cg       *CallGraph
+	guses    map[*ssa.Global][]ssa.Instruction
 }
 
 func loadEnv(cfg BuildConfig) []string {
